@@ -259,6 +259,18 @@ def acFind (d : Delims) : FindStart := fun pre rest =>
   | none => none
   | some pats => acLoop d (maxPatternLen pats) pre rest none (acMatches pats rest)
 
+/-- matches come in the order of their end offsets -/
+def byEndB : List AcMatch → Bool
+  | [] => true
+  | a :: r => r.all (fun b => a.stop ≤ b.stop) && byEndB r
+
+/-- decision procedure for the specification `AcSpec` of the automaton's report (`Proofs/LexerAC`):
+    `ms` holds exactly the occurrences of the patterns in `rest`, ordered by end offset.  The driver
+    evaluates it on what the real automaton reported (hook `start_marker_matches`). -/
+def acSpecB (pats : List (List Char)) (rest : List Char) (ms : List AcMatch) : Bool :=
+  let occ := acMatches pats rest
+  ms.all (fun m => occ.contains m) && occ.all (fun m => ms.contains m) && byEndB ms
+
 /-- the search `Tokenizer` uses (`SyntaxConfigBuilder::build`): memchr for the default delimiters,
     the automaton otherwise -/
 def findStart (d : Delims) : FindStart :=
